@@ -30,7 +30,8 @@ theorem step_facts (P : Prog) (c0 : Cfg) : StepFacts c0 (rcfg (step P c0)) := by
   unfold step
   split
   · rename_i hc
-    exact ⟨⟨[], rfl, by simp⟩, fun x hx => hx, fun i hi _ => by simp [rcfg, hc] at hi, fun hf _ => hf⟩
+    exact ⟨⟨[], rfl, by simp⟩, fun x hx => hx, fun i hi _ => by simp [rcfg, hc] at hi, fun hf _ => hf,
+      fun h1 h2 => by simp only [rcfg] at h2; rw [h1] at h2; cases h2⟩
   · rename_i ins rest hc
     have k0 : Keep c0 { c0 with code := rest } := Keep.of_eq rfl rfl rfl
     have s0 : ({ c0 with code := rest } : Cfg).code <:+ rest := List.suffix_refl _
@@ -44,7 +45,7 @@ theorem step_facts (P : Prog) (c0 : Cfg) : StepFacts c0 (rcfg (step P c0)) := by
       split
       · exact facts_plain hc s0 k0
       · split
-        · refine ⟨⟨[], rfl, by simp⟩, fun x hx => hx, fun i hi hb => ?_, fun a b => hfq a b _⟩
+        · refine ⟨⟨[], rfl, by simp⟩, fun x hx => hx, fun i hi hb => ?_, fun a b => hfq a b _, fun _ h2 => by cases h2⟩
           simp [push, Cfg.setCtx] at hi
           rcases hi with rfl | rfl | hi
           · cases hb
@@ -52,7 +53,8 @@ theorem step_facts (P : Prog) (c0 : Cfg) : StepFacts c0 (rcfg (step P c0)) := by
           · left; simp [hc, hi]
         · have g := raise_good ({ c0 with code := rest, L := { c0.L with forceQuit := false } } : Cfg) .err
           obtain ⟨new, e, hq⟩ := g.2.tr
-          refine ⟨⟨new, e, fun t ht hl => by rw [hq t ht] at hl; cases hl⟩, fun x hx => g.2.handlers x hx, fun i hi _ => ?_, fun a b => hfq a b _⟩
+          refine ⟨⟨new, e, fun t ht hl => by rw [hq t ht] at hl; cases hl⟩, fun x hx => g.2.handlers x hx, fun i hi _ => ?_, fun a b => hfq a b _,
+            fun _ h2 => by rw [g.2.fq] at h2; cases h2⟩
           left; rw [hc]; exact g.1.subset hi
     | quitCb =>
       simp only
@@ -136,13 +138,16 @@ theorem step_facts (P : Prog) (c0 : Cfg) : StepFacts c0 (rcfg (step P c0)) := by
       split
       · split
         · rename_i h d hk
-          refine facts_gen hc (k0.toL.trans k_eq) ?_
-          intro j hj hb
-          simp [push] at hj
-          rcases hj with rfl | rfl | hj
-          · right; exact ⟨⟨i, by simp [hc], hk⟩, handlersOf_mem hk⟩
-          · right; exact Or.inl ⟨i, by simp [hc]⟩
-          · exact Or.inl hj
+          split
+          · exact facts_plain hc sr k_cons
+          · rename_i hf
+            refine facts_gen hc (k0.toL.trans k_eq) ?_
+            intro j hj hb
+            simp [push] at hj
+            rcases hj with rfl | rfl | hj
+            · right; exact ⟨⟨i, by simp [hc], hk, by simp [push, hc]⟩, handlersOf_mem hk, by simpa using hf⟩
+            · right; exact Or.inl ⟨i, by simp [hc]⟩
+            · exact Or.inl hj
         · exact facts_plain hc sr k_cons
       · split
         · refine facts_gen hc (k0.toL.trans k_eq) ?_
